@@ -203,6 +203,8 @@ theorem applyRes_waitInv (cfg : Cfg) (pol : Policy) (step : Nat) (tickEv : Ev) (
   | addCollected buf ev =>
     simp only [applyRes]
     split
+    · exact ⟨hst, hex⟩
+    split
     · exact ⟨WaitInv.set hst _ _ ⟨(hst step).1, (hst step).2⟩, hex⟩
     · exact ⟨WaitInv.set hst _ _ ⟨(hst step).1, (hst step).2⟩, hex⟩
   | deleteCollected buf =>
